@@ -555,6 +555,25 @@ def mut_path_length(ast, pick, fresh):
     return _apply(ast, lambda n: n["k"] == "cmp", fn, pick)
 
 
+def mut_star_key(ast, pick, fresh):
+    """A [*] (or [0]) index step against a property literally named '*' (or '0'): a:z[*] / a:z.'*' -- different paths."""
+    def pred(n):
+        return n["k"] == "cmp" and any(s_["s"] == "idx" for s_ in n["path"]["steps"])
+
+    def fn(n):
+        steps = []
+        done = False
+        for s_ in n["path"]["steps"]:
+            if s_["s"] == "idx" and not done:
+                steps.append({"s": "key", "n": str(s_["i"]), "q": True})
+                done = True
+            else:
+                steps.append(s_)
+        n["path"] = {"t": n["path"]["t"], "steps": steps}
+        return n
+    return _apply(ast, pred, fn, pick)
+
+
 def mut_qualifier(ast, pick, fresh):
     def fn(n):
         q = dict(n["q"])
@@ -617,9 +636,9 @@ MUTATIONS = {
     "constant": mut_constant, "operator": mut_operator, "not": mut_not, "path": mut_path, "qualifier": mut_qualifier,
     "swap-followedby": mut_swap_followedby, "duplicate-and-operand": mut_duplicate_and_operand, "and-or": mut_and_or,
     "absorb-wrong": mut_absorb_wrong, "qualify": mut_qualify, "special-respell": mut_special_respell, "set-item": mut_set_item,
-    "path-length": mut_path_length,
+    "path-length": mut_path_length, "star-key": mut_star_key,
 }
-MUTATION_NAMES = ["path-length", "path-length", "constant", "constant", "operator", "not", "not", "not", "path", "qualifier", "qualifier", "swap-followedby", "swap-followedby",
+MUTATION_NAMES = ["star-key", "star-key", "path-length", "path-length", "constant", "constant", "operator", "not", "not", "not", "path", "qualifier", "qualifier", "swap-followedby", "swap-followedby",
                   "duplicate-and-operand", "and-or", "absorb-wrong", "qualify", "special-respell", "special-respell", "special-respell", "set-item", "set-item", "set-item", "set-item"]
 
 
